@@ -315,6 +315,10 @@ def run(ctx):
     from .c03 import check_gro_frame
 
     check_gro_frame(ctx, "R8")
+    ctx.rule("R9", "cube files: lengths written in bohr come back as written; a file flagged as angstrom (negative point counts) is refused or converted, never taken as bohr (header writer / reader and the loader evaluated)", "an angstrom-flavoured cube file loads with every length off by 1.89")
+    from .c02 import check_cube_header_pair
+
+    check_cube_header_pair(ctx, "R9")
     ctx.rule("R5", "cell vectors and grid step vectors are scaled along the right axis", "each cell vector is multiplied by the point count of another axis: the loaded cell differs from the same system in another format")
     from .indexmaps import check_index_maps
 
